@@ -47,6 +47,7 @@ INPLACE_KW = ("in_place",)
 
 state = {
     "depth": 0,
+    "oracle": False,  # True while a pre/post observation runs: the oracle's own calls go straight through
     "test": None,
     "evals": Counter(),
     "calls": Counter(),
@@ -192,15 +193,24 @@ def wrap(fn, callname, kind):
 
     @functools.wraps(fn)
     def wrapper(*args, **kwargs):
+        if state["oracle"]:
+            return fn(*args, **kwargs)
         state["calls"][kind] += 1
         if state["depth"] > 0:
             state["calls"]["nested"] += 1
             return fn(*args, **kwargs)
-        nets = [a for a in list(args[:2]) + list(kwargs.values()) if isinstance(a, NETCLS)]
+        if kind == "view":  # a method of a view or stat object: the network is the one it was created from
+            owner = args[0] if args else None
+            net = getattr(owner, "_net", None) if hasattr(owner, "_net") else getattr(owner, "net", None)
+            nets = [net] if isinstance(net, NETCLS) else []
+        else:
+            nets = [a for a in list(args[:2]) + list(kwargs.values()) if isinstance(a, NETCLS)]
         if not nets:
             return fn(*args, **kwargs)
         name = callname.rsplit(".", 1)[-1]
-        if kind == "method":
+        if kind == "view":
+            readonly = True
+        elif kind == "method":
             readonly = not _is_mutator(name) and not name.startswith("__i")
             if name == "cleanup":
                 readonly = False
@@ -215,7 +225,11 @@ def wrap(fn, callname, kind):
             seen.add(id(net))
             if name == "__init__" and i == 0:
                 continue  # under construction: no pre-state; observed through the first call made on it
-            obs.append(_Obs(net, callname, readonly, adding and i == 0, None))
+            state["oracle"] = True
+            try:
+                obs.append(_Obs(net, callname, readonly, adding and i == 0, None))
+            finally:
+                state["oracle"] = False
         state["callables"][callname] += 1
         state["depth"] += 1
         outcome = "returned"
@@ -226,9 +240,13 @@ def wrap(fn, callname, kind):
             raise
         finally:
             state["depth"] -= 1
-            ar = _safe_repr(args, kwargs)
-            for o in obs:
-                o.post(outcome, ar)
+            state["oracle"] = True
+            try:
+                ar = _safe_repr(args, kwargs)
+                for o in obs:
+                    o.post(outcome, ar)
+            finally:
+                state["oracle"] = False
 
     wrapper.__xgimon_wrapped__ = True
     return wrapper
@@ -257,6 +275,20 @@ def install():
         if ps and (ps[0] in NETPARAMS or (ps[0] == "data" and name.startswith("to_"))):
             setattr(xgi, name, wrap(f, name, "function"))
             n += 1
+    if "readonly" in MON:  # views and stats are part of the read-only surface (C08)
+        import xgi.core.views as V
+        import xgi.stats as ST
+
+        vclasses = [V.IDView, V.NodeView, V.EdgeView, V.DiNodeView, V.DiEdgeView]
+        sclasses = [getattr(ST, c) for c in ("IDStat", "MultiIDStat") if hasattr(ST, c)]
+        for cls in vclasses + sclasses:
+            for name, attr in list(vars(cls).items()):
+                if not inspect.isfunction(attr) or getattr(attr, "__xgimon_wrapped__", False):
+                    continue
+                if name.startswith("_") and name not in ("__call__", "__getitem__", "__and__", "__or__", "__sub__", "__xor__"):
+                    continue
+                setattr(cls, name, wrap(attr, f"{cls.__name__}.{name}", "view"))
+                n += 1
     state["wrapped"] = n
 
 
